@@ -30,7 +30,13 @@ pub fn seeds(step: usize) -> Vec<Program> {
             _ => step,
         };
         for (i, p) in frag.programs.into_iter().enumerate() {
-            if i % s == 0 {
+            // programs that carry line and inline annotations at once are all kept: the
+            // rewrites that separate the two kinds apply to them only
+            let both = f == 8 && {
+                let t = crate::gen::print(&p).texts;
+                t.iter().any(|(_, t)| t.contains('`') && t.lines().any(|l| l.trim_start().starts_with('#')))
+            };
+            if i % s == 0 || both {
                 out.push(p);
             }
         }
